@@ -141,6 +141,15 @@ class ASTTypeBuilder:
                 else:
                     type_def = cast(_ast.TypeDefinition, type_node)
 
+                if type_name in self._building:
+                    # Only reached through the parts of a definition which are
+                    # built eagerly (union members, implemented interfaces).
+                    raise SDLError(
+                        'Type "%s" cannot be part of its own definition'
+                        % type_name,
+                        [type_node],
+                    )
+
                 self._building.add(type_name)
                 try:
                     built = self._build_named_type(type_def)
@@ -195,23 +204,37 @@ class ASTTypeBuilder:
         try:
             return self._extended_cache[name]
         except KeyError:
-            if isinstance(type_, ObjectType):
-                extended = self._extend_object_type(type_)  # type: GraphQLType
-            elif isinstance(type_, InterfaceType):
-                extended = self._extend_interface_type(type_)
-            elif isinstance(type_, EnumType):
-                extended = self._extend_enum_type(type_)
-            elif isinstance(type_, UnionType):
-                extended = self._extend_union_type(type_)
-            elif isinstance(type_, InputObjectType):
-                extended = self._extend_input_object_type(type_)
-            elif isinstance(type_, ScalarType):
-                extended = self._extend_scalar_type(type_)
-            else:
-                raise TypeError(type(type_))
+            marker = "extend:%s" % name
+            if marker in self._building:
+                # Only reached through the parts of a type which are extended
+                # eagerly (union members, implemented interfaces).
+                raise SDLError(
+                    'Type "%s" cannot be part of its own definition' % name
+                )
+
+            self._building.add(marker)
+            try:
+                extended = self._extend_named_type(type_)
+            finally:
+                self._building.discard(marker)
 
             self._extended_cache[name] = extended
             return extended
+
+    def _extend_named_type(self, type_: GraphQLType) -> GraphQLType:
+        if isinstance(type_, ObjectType):
+            return self._extend_object_type(type_)
+        elif isinstance(type_, InterfaceType):
+            return self._extend_interface_type(type_)
+        elif isinstance(type_, EnumType):
+            return self._extend_enum_type(type_)
+        elif isinstance(type_, UnionType):
+            return self._extend_union_type(type_)
+        elif isinstance(type_, InputObjectType):
+            return self._extend_input_object_type(type_)
+        elif isinstance(type_, ScalarType):
+            return self._extend_scalar_type(type_)
+        raise TypeError(type(type_))
 
     def extend_directive(self, directive: Directive) -> Directive:
         if directive in SPECIFIED_DIRECTIVES:
